@@ -350,6 +350,7 @@ pub open spec fn ae_names<T: Eq + PartialOrd + Send + Sync, A: Clone>(pre: Graph
             &&& forall|a: T, x: T| #[trigger] post.pred_names(a).contains(x) ==
                     (pre.pred_names(a).contains(x) || (pre.specs.directed && a == e.v && x == e.u))
             &&& forall|k2: (T, T)| k2 != k ==> #[trigger] post.name_list(k2) == pre.name_list(k2)
+            &&& forall|k2: (T, T)| k2 != k ==> #[trigger] post.edges@.contains_key(k2) == pre.edges@.contains_key(k2)
             &&& post.edges@.contains_key(k)
             &&& pre.specs.multi_edges ==> ({
                     &&& post.name_list(k).len() == pre.name_list(k).len() + 1
